@@ -84,7 +84,12 @@ def run(ck):
 
     cases = J.run_harness(ck, "c08", n)
     shrunk = set()
-    for c in cases:
+    for k, c in enumerate(cases):
+        if c["op"] == "hold":
+            ck.coverage["results_held_across_later_cases"] = ck.coverage.get("results_held_across_later_cases", 0) + (c["obs"].get("n") or 0)
+            if not J.crash_kind(c["obs"]):
+                J.hold_oracle(ck, cases, k)
+                continue
         data = bytes.fromhex(c["in"])
         ck.count(c["stream"] + ":" + c["op"], key=(c["op"], c["in"], tuple(c.get("known") or []), c.get("script"), c.get("rmode"), c.get("cut")),
                  trivial=len(data) == 0)
